@@ -98,8 +98,15 @@ def frag_reads(header, contigs, method, idx, fr):
     return reads
 
 
-def write_library(path, contigs, method, frags, extra_reads_fn=None):
-    header = bamgen.make_header(contigs)
+PG_LINES = [{'ID': 'bwa', 'PN': 'bwa', 'VN': '0.7.17', 'CL': 'bwa mem'},
+            {'ID': 'bamtagmultiome', 'PN': 'bamtagmultiome', 'VN': '0', 'CL': 'earlier run'},
+            {'ID': 'bamtagmultiome_0', 'PN': 'bamtagmultiome', 'VN': '0', 'CL': 'run before that'}]
+
+
+def write_library(path, contigs, method, frags, extra_reads_fn=None, pg=False):
+    """pg: the input header already carries @PG lines, two of them of earlier bamtagmultiome runs (write_program_tag has to
+    find a free ID)"""
+    header = bamgen.make_header(contigs, extra={'PG': PG_LINES} if pg else None)
     reads = []
     for i, fr in enumerate(frags, 1):
         reads += frag_reads(header, contigs, method, i, fr)
@@ -215,7 +222,7 @@ def quiet():
         yield buf
 
 
-def serial_cli(btm, bam, out, method, contigs):
+def serial_cli(btm, bam, out, method, contigs, extra=()):
     """one serial pass of the real tagger (single process CLI), molecules observed through the iterator class"""
     global _MOL_LOG
     _MOL_LOG = []
@@ -223,7 +230,7 @@ def serial_cli(btm, bam, out, method, contigs):
     btm.MoleculeIterator = _observing_iterator_class()
     try:
         with quiet():
-            btm.run_multiome_tagging_cmd([bam, '-o', out, '-method', method])
+            btm.run_multiome_tagging_cmd([bam, '-o', out, '-method', method, *extra])
     finally:
         btm.MoleculeIterator = orig
     log, _MOL_LOG = _MOL_LOG, None
@@ -254,7 +261,8 @@ def run_tasks(tagging, bam, method, contigs, jobs):
         for job in jobs:
             col = Collector()
             for (c, s, e, fs, fe) in job:
-                tagging.run_tagging_task(al, col, contig='*' if c < 0 else contigs[c][0], start=s, end=e, fetch_start=fs,
+                # c = -1: the '*' contig; c = -2: no region at all (the "not supplying any coordinates" form: whole file)
+                tagging.run_tagging_task(al, col, contig=None if c == -2 else ('*' if c < 0 else contigs[c][0]), start=s, end=e, fetch_start=fs,
                                          fetch_end=fe, molecule_iterator_class=MoleculeIterator,
                                          molecule_iterator_args=iterator_args(method))
             out.append({'tasks': [task_rec(t) for t in job], 'recs': col.recs})
@@ -330,18 +338,30 @@ def run_parallel(btm, call, contigs, tmp, order_seed=None):
     return jobs, raised, plan
 
 
-def run_api(btm, bam, out, method, contigs, tmp, seg, job, fsize, use_pool, threads, order_seed=None, bed=False):
+def run_api(btm, bam, out, method, contigs, tmp, seg, job, fsize, use_pool, threads, order_seed=None, bed=False, args=None,
+            max_time=None):
     from singlecellmultiomics.molecule import MoleculeIterator
 
     def call():
-        btm.tag_multiome_multi_processing(bam, out, molecule_iterator=MoleculeIterator, molecule_iterator_args=iterator_args(method),
+        btm.tag_multiome_multi_processing(bam, out, molecule_iterator=MoleculeIterator,
+                                          molecule_iterator_args=args if args is not None else iterator_args(method),
                                           fragment_size=fsize, bp_per_job=job, bp_per_segment=seg, temp_folder_root=tmp,
                                           use_pool=use_pool, one_contig_per_process=False,
                                           additional_args={'consensus_mode': None}, n_threads=threads,
-                                          job_bed_file=os.path.join(tmp, 'jobs.bed') if bed else None)
+                                          job_bed_file=os.path.join(tmp, 'jobs.bed') if bed else None,
+                                          max_time_per_segment=max_time)
     jobs, raised, plan = run_parallel(btm, call, contigs, tmp, order_seed)
     merged = [{k: v for k, v in r.items() if k != 'e'} for r in read_bam(out)] if os.path.exists(out) and not raised else []
     return jobs, merged, raised, plan
+
+
+def prepare_index(bam, state):
+    if state == 'missing':
+        os.remove(bam + '.bai')
+    elif state == 'older':
+        st = os.stat(bam + '.bai')
+        os.utime(bam + '.bai', (st.st_atime - 100, st.st_mtime - 100))
+        os.utime(bam, None)
 
 
 def run_cpp(btm, bam, out, method, contigs, tmp, threads):
@@ -501,7 +521,52 @@ def hand_tilings(rng, lib, n):
         for i in range(0, len(tasks), size):
             jobs.append(tasks[i:i + size])
         out.append(jobs)
+    out.append([[(-1, None, None, None, None)], [(-2, None, None, None, None)]])    # one job without any coordinates + the '*' job
     return out
+
+
+def api_options(rng, lib, method, k, npool):
+    """parameters of one region-API run (all JSON-able: 0 stands for None, '' for no contig)"""
+    seg = rng.choice([lib['B'], lib['B'], lib['B'], lib['B'], lib['B'] // 2 + 7, 2 * lib['B'], 10 * lib['B']])
+    exact = max([f['hi'] - f['lo'] + (1 if (method == 'chic' or f.get('clip')) else 0) for f in lib['frags']] + [1])
+    fsize = rng.choice([lib['maxext'] + 1, exact, lib['F'], 2 * lib['F']])      # exact: request == longest fragment
+    jobbp = rng.choice([seg, 2 * seg, 10 * seg, seg // 2, 0, 1])
+    if k % 4 == 2:      # bins smaller than the fragments (and than the reads) while the requested margin covers a fragment
+        seg = rng.choice([13, 30, 47])
+        fsize = rng.choice([exact, exact + 1, 2 * lib['F'] + 60])
+        jobbp = rng.choice([20 * seg, 60 * seg])
+    use_pool = k < npool
+    with_reads = sorted(set(lib['contigs'][f['c']][0] for f in lib['frags']))
+    variant = {1: 'skipnone', 5: 'skip', 7: 'contig'}.get(k % 8, '') if with_reads else ''
+    return {'seg': seg, 'fsize': fsize, 'jobbp': jobbp, 'use_pool': use_pool,
+            'threads': 0 if (not use_pool and k % 5 == 0) else rng.randint(1, 8),     # 0: n_threads=None
+            'order': rng.randint(1, 10 ** 6),
+            'bed': k % 4 == 1,             # the -jobbed path: the job generator is materialised and written to a bed file first
+            'maxtime': 10 ** 6 if k % 4 == 3 else 0,    # max_time_per_segment set (never reached): the timeout callback is armed
+            # skipnone: skip_contigs=None; skip: one contig skipped (-skip_contig); contig: only one contig (-contig)
+            'variant': variant, 'vcontig': rng.choice(with_reads) if variant in ('skip', 'contig') else ''}
+
+
+def api_event(btm, bam, tmp, lib, method, ser, o, tid, tag='x'):
+    """one region-API run; for the skip / contig variants the serial reference is the serial CLI with the same option"""
+    args = iterator_args(method)
+    if o.get('variant') == 'skipnone':
+        args['skip_contigs'] = None
+    elif o.get('variant') == 'skip':
+        args['skip_contigs'] = {o['vcontig']}
+        ser = serial_cli(btm, bam, os.path.join(tmp, 'serv%s.bam' % tag), method, lib['contigs'], ['-skip_contig', o['vcontig']])
+    elif o.get('variant') == 'contig':
+        args.update(contig=o['vcontig'], start=None, end=None)
+        ser = serial_cli(btm, bam, os.path.join(tmp, 'serv%s.bam' % tag), method, lib['contigs'], ['-contig', o['vcontig']])
+    par = os.path.join(tmp, 'par%s.bam' % tag)
+    jobs, merged, raised, plan = run_api(btm, bam, par, method, lib['contigs'], tmp, o['seg'], o['jobbp'], o['fsize'], o['use_pool'],
+                                         o['threads'] or None, o.get('order'), o.get('bed', False), args, o.get('maxtime') or None)
+    for pth in (par, par + '.bai', os.path.join(tmp, 'serv%s.bam' % tag), os.path.join(tmp, 'serv%s.bam.bai' % tag)):
+        if os.path.exists(pth):
+            os.remove(pth)
+    return {'ev': 'run', 'tid': tid, 'mode': 'api', 'method': method, 'contigs': [l for _, l in lib['contigs']], 'serial': ser,
+            'jobs': jobs, 'plan': plan, 'merged': merged, 'raised': raised, 'req': o['fsize'],
+            'case': {'lib': lib, 'method': method, 'api': o}}
 
 
 # ------------------------------------------------------------------------------------------------
@@ -534,8 +599,9 @@ def main():
         for k in range(nlib):
             method = 'nla' if k % 3 != 2 else 'chic'
             lib = random_library(rng, method)
+            lib['pg'] = k % 3 == 1
             bam = os.path.join(tmp, 'lib%d.bam' % k)
-            write_library(bam, lib['contigs'], method, lib['frags'], unplaced_reads(lib['nun']))
+            write_library(bam, lib['contigs'], method, lib['frags'], unplaced_reads(lib['nun']), lib['pg'])
             ser = serial_cli(btm, bam, os.path.join(tmp, 'ser%d.bam' % k), method, lib['contigs'])
             clens = [l for _, l in lib['contigs']]
             case = {'lib': lib, 'method': method}
@@ -546,28 +612,19 @@ def main():
                       'jobs': jr, 'plan': [j['tasks'] for j in jr], 'merged': [], 'raised': '',
                       'case': dict(case, jobs=[[task_rec(t) for t in j] for j in jobs])})
             if k < napi:
-                seg = rng.choice([lib['B'], lib['B'], lib['B'], lib['B'], lib['B'] // 2 + 7, 2 * lib['B'], 10 * lib['B']])
-                exact = max(f['hi'] - f['lo'] + (1 if (method == 'chic' or f.get('clip')) else 0) for f in lib['frags'])
-                fsize = rng.choice([lib['maxext'] + 1, exact, lib['F'], 2 * lib['F']])      # exact: request == longest fragment
-                jobbp = rng.choice([seg, 2 * seg, 10 * seg, seg // 2, 0, 1])
-                if k % 4 == 2:      # bins smaller than the fragments (and than the reads) while the requested margin covers a fragment
-                    seg = rng.choice([13, 30, 47])
-                    fsize = rng.choice([exact, exact + 1, 2 * lib['F'] + 60])
-                    jobbp = rng.choice([20 * seg, 60 * seg])
-                use_pool = k < npool
-                threads = rng.randint(1, 8)
-                par = os.path.join(tmp, 'par%d.bam' % k)
-                order = rng.randint(1, 10 ** 6)
-                bed = k % 4 == 1       # the -jobbed path: the job generator is materialised and written to a bed file first
-                jobs, merged, raised, plan = run_api(btm, bam, par, method, lib['contigs'], tmp, seg, jobbp, fsize, use_pool, threads, order, bed)
                 tid += 1
-                emit({'ev': 'run', 'tid': tid, 'mode': 'api', 'method': method, 'contigs': clens, 'serial': ser, 'jobs': jobs,
-                      'plan': plan, 'merged': merged, 'raised': raised, 'req': fsize,
-                      'case': dict(case, api={'seg': seg, 'fsize': fsize, 'jobbp': jobbp, 'use_pool': use_pool, 'threads': threads,
-                                                 'order': order, 'bed': bed})})
+                emit(api_event(btm, bam, tmp, lib, method, ser, api_options(rng, lib, method, k, npool), tid, str(k)))
             for p in os.listdir(tmp):
                 if p.startswith(('lib%d.' % k, 'ser%d.' % k, 'par%d.' % k)):
                     os.remove(os.path.join(tmp, p))
+        # a library without a single read: no job writes a file, merge_bams gets the header-only file alone
+        lib = {'B': 300, 'F': 60, 'contigs': [('chr1', 1200), ('chr2', 900)], 'frags': [], 'nun': 0, 'maxext': 60, 'pg': False}
+        bam = os.path.join(tmp, 'libE.bam')
+        write_library(bam, lib['contigs'], 'nla', [], None)
+        ser = serial_cli(btm, bam, os.path.join(tmp, 'serE.bam'), 'nla', lib['contigs'])
+        tid += 1
+        emit(api_event(btm, bam, tmp, lib, 'nla', ser, {'seg': 300, 'fsize': 60, 'jobbp': 600, 'use_pool': False, 'threads': 2,
+                                                       'order': 1, 'bed': False, 'maxtime': 0, 'variant': '', 'vcontig': ''}, tid, 'E'))
         for k in range(ncpp):
             method = 'nla' if k % 2 == 0 else 'chic'
             lib = random_library(rng, method, big=True, n_small=[1, 0, 2, 1, 3, 0][k % 6])
@@ -581,11 +638,13 @@ def main():
             if stale:
                 for ext_ in ('', '.bai'):
                     shutil.copy(os.path.join(tmp, 'bser%d.bam' % k) + ext_, os.path.join(tmp, 'bpar%d.bam' % k) + ext_)
+            index = ['ok', 'missing', 'older'][k % 3]      # verify_and_fix_bam: the CLI (re)builds the index of its input
+            prepare_index(bam, index)
             jobs, merged, raised, plan = run_cpp(btm, bam, os.path.join(tmp, 'bpar%d.bam' % k), method, lib['contigs'], tmp, threads)
             tid += 1
             emit({'ev': 'run', 'tid': tid, 'mode': 'cpp', 'method': method, 'contigs': [l for _, l in lib['contigs']], 'serial': ser,
                   'jobs': jobs, 'plan': plan, 'merged': merged, 'raised': raised,
-                  'case': {'lib': lib, 'method': method, 'cpp': {'threads': threads, 'stale': stale}}})
+                  'case': {'lib': lib, 'method': method, 'cpp': {'threads': threads, 'stale': stale, 'index': index}}})
     shutil.rmtree(tmp, True)
 
 
@@ -621,7 +680,7 @@ def replay_case(case_path, outp):
         lib, method = case['lib'], case['method']
         lib['contigs'] = [tuple(c) for c in lib['contigs']]
         bam = os.path.join(tmp, 'lib.bam')
-        write_library(bam, lib['contigs'], method, lib['frags'], unplaced_reads(lib['nun']))
+        write_library(bam, lib['contigs'], method, lib['frags'], unplaced_reads(lib['nun']), lib.get('pg', False))
         ser = serial_cli(btm, bam, os.path.join(tmp, 'ser.bam'), method, lib['contigs'])
         ev = {'ev': 'run', 'tid': 1, 'method': method, 'contigs': [l for _, l in lib['contigs']], 'serial': ser, 'merged': [],
               'raised': '', 'case': case}
@@ -631,11 +690,9 @@ def replay_case(case_path, outp):
             jr = run_tasks(tagging, bam, method, lib['contigs'], jobs)
             ev.update(mode='tasks', jobs=jr, plan=[j['tasks'] for j in jr])
         elif 'api' in case:
-            a = case['api']
-            jobs, merged, raised, plan = run_api(btm, bam, os.path.join(tmp, 'par.bam'), method, lib['contigs'], tmp, a['seg'],
-                                                 a['jobbp'], a['fsize'], a['use_pool'], a['threads'], a.get('order'), a.get('bed', False))
-            ev.update(mode='api', jobs=jobs, merged=merged, raised=raised, plan=plan, req=a['fsize'])
+            ev = api_event(btm, bam, tmp, lib, method, ser, case['api'], 1, 'R')
         else:
+            prepare_index(bam, case['cpp'].get('index', 'ok'))
             jobs, merged, raised, plan = run_cpp(btm, bam, os.path.join(tmp, 'par.bam'), method, lib['contigs'], tmp,
                                                  case['cpp']['threads'])
             ev.update(mode='cpp', jobs=jobs, merged=merged, raised=raised, plan=plan)
